@@ -440,6 +440,16 @@ func namedLeaves() []*gen.Leaf {
 	out = append(out, gen.LeafByName("*int"), gen.LeafByName("*string"), gen.LeafByName("*TU"))
 	// durations (substituted by the file decoders) alone and in fixed-size arrays, and a plain array
 	out = append(out, gen.LeafByName("duration"), gen.LeafByName("[2]duration"), gen.LeafByName("[3]int"))
+	// and every builtin-typed leaf the flag sources support (each has its own registration branch)
+	seen := map[*gen.Leaf]bool{}
+	for _, l := range out {
+		seen[l] = true
+	}
+	for _, l := range gen.LeavesWith(gen.CapFlag, 0) {
+		if !seen[l] {
+			out = append(out, l)
+		}
+	}
 	return out
 }
 
